@@ -107,7 +107,10 @@ def run_case(case, ctx):
         ok, p = ctx.call("predict:exception:" + spec[0], f.predict, fharg_pred)
         return (f, p) if ok else (f, None)
 
-    f, p = fit_predict(y, fh if fh_in in ("fit", "both") else None, fh if fh_in in ("predict", "both") else None, "rel")
+    # the horizon arrives in one of the documented containers, not necessarily in increasing order: the forecast is in time order anyway
+    C = [lambda v: list(v), lambda v: np.array(v), lambda v: pd.Index(list(v)[::-1], dtype="int64"), lambda v: list(v)[::-1], lambda v: np.array(list(v)[1:] + list(v)[:1])][case["dseed"] % 5]
+    ctx.tag("horizon-container:%d" % (case["dseed"] % 5))
+    f, p = fit_predict(y, C(fh) if fh_in in ("fit", "both") else None, C(fh) if fh_in in ("predict", "both") else None, "rel")
     if f is None or p is None:
         return
     cutoff = int(y.index[-1])
@@ -124,8 +127,8 @@ def run_case(case, ctx):
         ctx.check("predict.finite", bool(np.all(np.isfinite(np.asarray(p, dtype=float)))), "predict:non-finite-forecast:" + spec[0],
                   "non-finite forecast for finite data", got=np.asarray(p, dtype=float).tolist())
     # ---- absolute horizon gives the same forecast --------------------------------------------------
-    fabs = ForecastingHorizon(exp_idx, is_relative=False)
-    f2, p2 = fit_predict(y, fabs if fh_in in ("fit", "both") else None, ForecastingHorizon(exp_idx, is_relative=False) if fh_in in ("predict", "both") else None, "abs")
+    fabs = ForecastingHorizon(C(exp_idx), is_relative=False)
+    f2, p2 = fit_predict(y, fabs if fh_in in ("fit", "both") else None, ForecastingHorizon(C(exp_idx), is_relative=False) if fh_in in ("predict", "both") else None, "abs")
     if p2 is not None:
         ctx.check("rel==abs", [int(v) for v in p2.index] == exp_idx, "predict:absolute-horizon-labels:" + spec[0],
                   "absolute horizon: forecast not labelled by the requested time points", got=[int(v) for v in p2.index], expected=exp_idx)
